@@ -547,9 +547,13 @@ def c02_6(ctx):
 
 
 def c02_macro_sizes(ctx):
-    """A macro line reserves what its steps emit (C10.1 re-evaluated as a clause of 'emitted = reserved')."""
+    """A macro line reserves what its steps emit (C10.1 re-evaluated as a clause of 'emitted = reserved'), and so does an
+    instruction: the size gate of get_bytes (C01.4) and the size computation over the parts (C01.6)."""
     from rules.c10 import c10_1
+    from rules.c01 import c01_4, c01_6
     c10_1(ctx)
+    c01_4(ctx)
+    c01_6(ctx)
 
 
 def c02_zone_of_line(ctx):
